@@ -15,11 +15,12 @@ type Reader struct {
 	mu        sync.Mutex
 }
 
-// request is a written packet the reader still has to answer: the writer to answer to and
-// the generation of the link the packet was written over.
+// request is a written packet the reader still has to answer: the writer to answer to, the
+// generation of the link the packet was written over and the writer's number of the write.
 type request struct {
 	writer *Writer
 	link   uint64
+	write  uint64
 }
 
 var ClosedReader *Reader
@@ -120,7 +121,7 @@ func (r *Reader) Receive(pck *Packet) bool {
 
 	r.mu.Unlock()
 
-	return req.writer.receive(pck, r, req.link)
+	return req.writer.receive(pck, r, req.link, req.write)
 }
 
 // Close closes the reader and releases its resources, stopping further packet processing.
@@ -135,7 +136,7 @@ func (r *Reader) Close() {
 	pck := New(ErrDroppedPacket)
 	for _, req := range r.writers {
 		r.outbounds.Handle(pck)
-		go req.writer.receive(pck, r, req.link)
+		go req.writer.receive(pck, r, req.link, req.write)
 	}
 
 	close(r.in)
@@ -146,7 +147,7 @@ func (r *Reader) Close() {
 	r.outbounds = nil
 }
 
-func (r *Reader) write(pck *Packet, writer *Writer, link uint64) bool {
+func (r *Reader) write(pck *Packet, writer *Writer, link uint64, write uint64) bool {
 	r.mu.Lock()
 	defer r.mu.Unlock()
 
@@ -154,7 +155,7 @@ func (r *Reader) write(pck *Packet, writer *Writer, link uint64) bool {
 		return false
 	}
 
-	r.writers = append(r.writers, request{writer: writer, link: link})
+	r.writers = append(r.writers, request{writer: writer, link: link, write: write})
 	r.inbounds.Handle(pck)
 	r.in <- pck
 	return true
